@@ -115,50 +115,76 @@ theorem arr_of_mem_isArray (c : Option Value) (K : Kind) (h : memOpt c K = true)
       have := prim_nonempty_of_mem_scalar _ K h (by intro xs; simp) (by intro m; simp)
       rw [this] at hp; cases hp
 
+theorem asMap_sorted (c : Option Value) (hs : optSorted c = true) : (Value.asMap c).Sorted = true := by
+  cases c with
+  | none => rfl
+  | some v => cases v <;> first | rfl | (simpa [optSorted, Value.Sorted, Value.asMap] using hs)
+
+theorem asList_sorted (c : Option Value) (hs : optSorted c = true) : (Value.asList c).Sorted = true := by
+  cases c with
+  | none => rfl
+  | some v => cases v <;> first | rfl | (simpa [optSorted, Value.Sorted, Value.asList] using hs)
+
+theorem asMap_non_obj (c : Option Value) (h : ¬ ∃ m, c = some (.obj m)) : Value.asMap c = .nil := by
+  cases c with
+  | none => rfl
+  | some v => cases v <;> first | rfl | (exact absurd ⟨_, rfl⟩ h)
+
+theorem asList_non_arr (c : Option Value) (h : ¬ ∃ a, c = some (.arr a)) : Value.asList c = .nil := by
+  cases c with
+  | none => rfl
+  | some v => cases v <;> first | rfl | (exact absurd ⟨_, rfl⟩ h)
+
 /-- the facts `insert_recursive` relies on at a field segment: the object found at the location (or
     the fresh empty one) satisfies the collection the kind continues with. -/
 theorem field_facts (c : Option Value) (K : Kind) (hs : optSorted c = true) (h : memOpt c K = true)
-    (hu : (K.hasObj && !K.isObject) = false) :
+    (f : Key) (rest : Path) (hu : C19.unionAltReq K (.field f) rest = false) :
     let m := Value.asMap c
     let col := K.object.getD Col.empty
     m.Sorted = true ∧
     (∀ k w, m.get k = some w → mem w (slotKind col k) = true) ∧
-    (∀ k K', col.known.get k = some K' → m.get k = none → K'.prim.undefined = true) ∧
-    (∀ f, K.getField f = (col.known.get f).getD col.unknownKind) := by
+    (∀ k K', col.known.get k = some K' → m.get k = none → K'.prim.undefined = true) := by
   intro m col
+  have hms : m.Sorted = true := asMap_sorted c hs
   cases hO : K.hasObj with
   | true =>
-    have hIs : K.isObject = true := by simpa [hO] using hu
-    obtain ⟨m', rfl⟩ := obj_of_mem_isObject c K h hIs
     obtain ⟨col', hc⟩ := Kind.object_of_hasObj hO
-    simp only [optSorted, Value.Sorted] at hs
-    simp only [memOpt] at h
-    obtain ⟨col'', hc', hmem, habs⟩ := (mem_obj_iff m' K (VMap.sortedKeys_of_sorted m' hs)).mp h
-    rw [hc] at hc'; cases hc'
     have hcol : col = col' := by simp [col, hc]
-    have hm : m = m' := rfl
-    rw [hcol, hm]
-    refine ⟨hs, hmem, habs, ?_⟩
-    intro f
-    simp [Kind.getField, hc, Kind.isExact_of_isObject K hIs]
+    by_cases hv : ∃ m', c = some (.obj m')
+    · obtain ⟨m', rfl⟩ := hv
+      simp only [optSorted, Value.Sorted] at hs
+      simp only [memOpt] at h
+      obtain ⟨col'', hc', hmem, habs⟩ := (mem_obj_iff m' K (VMap.sortedKeys_of_sorted m' hs)).mp h
+      rw [hc] at hc'; cases hc'
+      have hm : m = m' := rfl
+      rw [hcol, hm]
+      exact ⟨hs, hmem, habs⟩
+    · -- the value is not an object: the kind is a union, so no known field is required
+      have hm : m = .nil := asMap_non_obj c hv
+      have hIs : K.isObject = false := by
+        cases hIs : K.isObject with
+        | false => rfl
+        | true => exact absurd (obj_of_mem_isObject c K h hIs) hv
+      have hreq : col'.known.any (fun _ v => !v.prim.undefined) = false := by
+        simpa [C19.unionAltReq, hO, hIs, hc] using hu
+      rw [hcol, hm]
+      refine ⟨rfl, ?_, ?_⟩
+      · intro k w hk; simp [VMap.get] at hk
+      · intro k K' hk _
+        have := KList.any_false _ col'.known hreq k K' hk
+        simpa using this
   | false =>
     have hnone := Kind.object_none_of_hasObj_false hO
     have hcol : col = Col.empty := by simp [col, hnone]
     have hm : m = .nil := by
-      cases c with
-      | none => rfl
-      | some v =>
-        cases v with
-        | obj m' =>
-          simp only [memOpt] at h
-          rw [mem_obj_hasObj m' K h] at hO; cases hO
-        | _ => rfl
+      apply asMap_non_obj
+      rintro ⟨m', rfl⟩
+      simp only [memOpt] at h
+      rw [mem_obj_hasObj m' K h] at hO; cases hO
     rw [hcol, hm]
-    refine ⟨rfl, ?_, ?_, ?_⟩
+    refine ⟨rfl, ?_, ?_⟩
     · intro k w hk; simp [VMap.get] at hk
     · intro k K' hk; simp [Kind.empty_known, KList.get] at hk
-    · intro f
-      simp [Kind.getField, hnone, Kind.empty_known, KList.get, Kind.empty_unknownKind]
 
 /-- the location a field segment continues with is described by the kind it continues with. -/
 theorem field_child (m : VMap) (col : Col) (f : Key)
@@ -261,61 +287,59 @@ namespace Spec
 
 /-- the facts `insert_recursive` relies on at a non-negative index segment. -/
 theorem index_facts (c : Option Value) (K : Kind) (h : memOpt c K = true)
-    (hu : (K.hasArr && !K.isArray) = false)
+    (i : Int) (rest : Path) (hu : C19.unionAltReq K (.index i) rest = false)
     (hopt : (match K.array with | some col => col.known.any (fun _ v => v.prim.undefined) | none => false) = false) :
     let a := Value.asList c
     let col := K.array.getD Col.empty
     (∀ j w, a.getN j = some w → mem w (slotKind col (Key.ofIdx j)) = true) ∧
-    (∀ k K', col.known.get k = some K' → k.idx < a.length) ∧
-    (∀ j, K.getIndexPos col j = (col.known.get (Key.ofIdx j)).getD col.unknownKind) ∧
-    (K.array = none → col = Col.empty) ∧ (∀ col', K.array = some col' → col = col') := by
+    (∀ k K', col.known.get k = some K' → k.idx < a.length) := by
   intro a col
   cases hA : K.hasArr with
   | true =>
-    have hIs : K.isArray = true := by simpa [hA] using hu
-    obtain ⟨a', rfl⟩ := arr_of_mem_isArray c K h hIs
     obtain ⟨col', hc⟩ := Kind.array_of_hasArr hA
-    simp only [memOpt] at h
-    obtain ⟨col'', hc', hmem, habs⟩ := (mem_arr_iff a' K).mp h
-    rw [hc] at hc'; cases hc'
     have hcol : col = col' := by simp [col, hc]
-    have ha : a = a' := rfl
     rw [hc] at hopt
-    rw [hcol, ha]
-    refine ⟨hmem, ?_, ?_, ?_, ?_⟩
-    · intro k K' hk
+    by_cases hv : ∃ a', c = some (.arr a')
+    · obtain ⟨a', rfl⟩ := hv
+      simp only [memOpt] at h
+      obtain ⟨col'', hc', hmem, habs⟩ := (mem_arr_iff a' K).mp h
+      rw [hc] at hc'; cases hc'
+      have ha : a = a' := rfl
+      rw [hcol, ha]
+      refine ⟨hmem, ?_⟩
+      intro k K' hk
       by_cases hl : k.idx < a'.length
       · exact hl
       · have h1 := habs k K' hk (Nat.not_lt.mp hl)
         have h2 := KList.any_false _ col'.known hopt k K' hk
         simp [h1] at h2
-    · intro j; simp [Kind.getIndexPos, Kind.isExact_of_isArray K hIs]
-    · intro hn; rw [hc] at hn; cases hn
-    · intro c2 h2; rw [hc] at h2; cases h2; rfl
+    · have ha : a = .nil := asList_non_arr c hv
+      have hIs : K.isArray = false := by
+        cases hIs : K.isArray with
+        | false => rfl
+        | true => exact absurd (arr_of_mem_isArray c K h hIs) hv
+      have hreq : col'.known.any (fun _ v => !v.prim.undefined) = false := by
+        simpa [C19.unionAltReq, hA, hIs, hc] using hu
+      rw [hcol, ha]
+      refine ⟨?_, ?_⟩
+      · intro j w hj; simp [VList.getN] at hj
+      · intro k K' hk
+        exfalso
+        have h1 := KList.any_false _ col'.known hreq k K' hk
+        have h2 := KList.any_false _ col'.known hopt k K' hk
+        simp [h2] at h1
   | false =>
     have hnone := Kind.array_none_of_hasArr_false hA
     have hcol : col = Col.empty := by simp [col, hnone]
     have ha : a = .nil := by
-      cases c with
-      | none => rfl
-      | some v =>
-        cases v with
-        | arr a' =>
-          simp only [memOpt] at h
-          rw [mem_arr_hasArr a' K h] at hA; cases hA
-        | _ => rfl
+      apply asList_non_arr
+      rintro ⟨a', rfl⟩
+      simp only [memOpt] at h
+      rw [mem_arr_hasArr a' K h] at hA; cases hA
     rw [hcol, ha]
-    refine ⟨?_, ?_, ?_, ?_, ?_⟩
+    refine ⟨?_, ?_⟩
     · intro j w hj; simp [VList.getN] at hj
     · intro k K' hk; simp [Kind.empty_known, KList.get] at hk
-    · intro j
-      have hne : K.isExact = true ∨ K.isExact = false := by cases K.isExact <;> simp
-      simp only [Kind.getIndexPos, Kind.empty_known, KList.get, Option.getD_none, Kind.empty_unknownKind]
-      split
-      · rfl
-      · rfl
-    · intro _; rfl
-    · intro c2 h2; rw [hnone] at h2; cases h2
 
 end Spec
 
@@ -506,16 +530,6 @@ end Spec
 
 namespace Spec
 
-theorem asMap_sorted (c : Option Value) (hs : optSorted c = true) : (Value.asMap c).Sorted = true := by
-  cases c with
-  | none => rfl
-  | some v => cases v <;> first | rfl | (simpa [optSorted, Value.Sorted, Value.asMap] using hs)
-
-theorem asList_sorted (c : Option Value) (hs : optSorted c = true) : (Value.asList c).Sorted = true := by
-  cases c with
-  | none => rfl
-  | some v => cases v <;> first | rfl | (simpa [optSorted, Value.Sorted, Value.asList] using hs)
-
 theorem optSorted_map_get (m : VMap) (f : Key) (hs : m.Sorted = true) : optSorted (m.get f) = true := by
   cases hg : m.get f with
   | none => rfl
@@ -552,12 +566,13 @@ theorem index_child (a : VList) (col : Col) (idx : Nat)
       simp [Key.ofIdx, Key.idx] at this; omega
     | none => simpa [Col.unknownKind] using toKind_undefined col.unknown
 
-/-- **`insert_recursive` is sound** along paths of fields and non-negative indices that meet neither
-    an array kind with an optional known index nor a union kind with the collection state of the
-    segment. -/
+/-- **`insert_recursive` is sound** along paths of fields and non-negative indices on which it meets
+    neither an array kind with an optional known index nor a union kind whose collection state for the
+    segment has a required known entry. -/
 theorem insertRec_sound : (p : Path) → (c : Option Value) → (K : Kind) → (x : Value) → (X : Kind) →
     optSorted c = true → memOpt c K = true → mem x X = true → nonNegPath p = true →
-    C19.anyOnPath C19.optionalIdx K p = false → C19.anyOnPath C19.unionAlt K p = false →
+    C19.anyOnInsertPath C19.optionalIdx K p = false →
+    C19.anyOnInsertPath C19.unionAltReq K p = false →
     mem (Value.insertOpt c p x) (K.insertRec p X) = true
   | [], c, K, x, X, _, _, hx, _, _, _ => by
     rw [insertRec_nil K X (not_never_of_mem x X hx)]
@@ -565,11 +580,8 @@ theorem insertRec_sound : (p : Path) → (c : Option Value) → (K : Kind) → (
   | .field f :: rest, c, K, x, X, hs, hc, hx, hp, h1, h2 => by
     have hX := not_never_of_mem x X hx
     simp only [nonNegPath, List.all_cons, Bool.and_eq_true] at hp
-    simp only [C19.anyOnPath, Bool.or_eq_false_iff] at h1 h2
-    have hu : (K.hasObj && !K.isObject) = false := by simpa [C19.unionAlt] using h2.1
-    obtain ⟨hms, hmem, habs, hgf⟩ := field_facts c K hs hc hu
-    have hseg : K.getSeg (.field f) = K.getField f := rfl
-    rw [hseg, hgf f] at h1 h2
+    simp only [C19.anyOnInsertPath, Bool.or_eq_false_iff] at h1 h2
+    obtain ⟨hms, hmem, habs⟩ := field_facts c K hs hc f rest h2.1
     have ih := insertRec_sound rest ((Value.asMap c).get f) _ x X
       (optSorted_map_get _ f hms) (field_child _ _ f hmem habs) hx hp.2 h1.2 h2.2
     rw [insertRec_field K X f rest hX]
@@ -579,8 +591,7 @@ theorem insertRec_sound : (p : Path) → (c : Option Value) → (K : Kind) → (
     have hX := not_never_of_mem x X hx
     simp only [nonNegPath, List.all_cons, Bool.and_eq_true] at hp
     have hi : 0 ≤ i := by simpa [nonNegSeg] using hp.1
-    simp only [C19.anyOnPath, Bool.or_eq_false_iff] at h1 h2
-    have hu : (K.hasArr && !K.isArray) = false := by simpa [C19.unionAlt] using h2.1
+    simp only [C19.anyOnInsertPath, Bool.or_eq_false_iff] at h1 h2
     have hopt : (match K.array with
         | some col => col.known.any (fun _ v => v.prim.undefined) | none => false) = false := by
       have := h1.1
@@ -588,21 +599,11 @@ theorem insertRec_sound : (p : Path) → (c : Option Value) → (K : Kind) → (
       cases hA : K.array with
       | none => rfl
       | some col => simpa [hA] using this
-    obtain ⟨hmem, hlen, hpos, hnone, hsome⟩ := index_facts c K hc hu hopt
-    have hseg : K.getSeg (.index i) =
+    obtain ⟨hmem, hlen⟩ := index_facts c K hc i rest h2.1 hopt
+    have hnext : C19.insertNext K (.index i) =
         (((K.array.getD Col.empty).known.get (Key.ofIdx i.toNat)).getD (K.array.getD Col.empty).unknownKind) := by
-      show K.getIndex i = _
-      unfold Kind.getIndex
-      cases hA : K.array with
-      | none =>
-        have := hnone hA
-        simp only [this]
-        simp [Kind.empty_known, KList.get, Kind.empty_unknownKind]
-      | some col =>
-        have := hsome col hA
-        simp only [Int.not_lt.mpr hi, if_false]
-        rw [← this]; exact hpos i.toNat
-    rw [hseg] at h1 h2
+      simp [C19.insertNext, Int.not_lt.mpr hi]
+    rw [hnext] at h1 h2
     have has := asList_sorted c hs
     have ih := insertRec_sound rest ((Value.asList c).getN i.toNat) _ x X
       (optSorted_getN _ _ has) (index_child _ _ i.toNat hmem hlen) hx hp.2 h1.2 h2.2
